@@ -111,3 +111,149 @@ Example C05_ex_has11_xmlns : has11 [uri_b10x; uri_b11x] /\ ~ has11 [uri_b10; lit
 Proof. split; [vm_compute; reflexivity|]. vm_compute. discriminate. Qed.
 Example C05_ex_good : good (LRecv (HTree ex_server_hello)).
 Proof. exists ex_server_hello. eexists. eexists. split; [reflexivity|]. vm_compute. reflexivity. Qed.
+
+(* ================================================================================================
+   The same clauses on the TWO-THREAD transition system Model/NegotiateSched.v: one label per access
+   to a field shared by the connecting thread (Session._post_connect, later Session.send) and the
+   worker (Session.run, _dispatch_message/_dispatch_error, HelloHandler, ok_cb/err_cb).  `run_flabels`
+   accepts a label sequence iff every label is the next statement of its thread and its enabling fact
+   holds; the theorems quantify over ALL accepted sequences, i.e. over every interleaving of the two
+   threads, every readiness pattern, every arrival time and number of server messages, deadline,
+   write fault, EOF and read error.  tools/harness/neg_sched.py runs the real code under a
+   deterministic scheduler at exactly this granularity and validates every effect trace against
+   `fstep` (tools/harness/neg_check.py).
+   ================================================================================================ *)
+From NC Require Import Model.NegotiateSched Proofs.NegotiateSchedProofs.
+
+(* Under every interleaving the first frame on the wire is the client <hello> in end-of-message framing. *)
+Theorem C05_sched_first_frame : forall client labels s,
+  run_flabels client finit labels = Some s ->
+  f_wire s = [] \/ exists rest, f_wire s = (B10, 0) :: rest.
+Proof. exact fc05_first_frame. Qed.
+Print Assumptions C05_sched_first_frame.
+
+(* Every later frame was framed with the final base, after _post_connect had returned normally, and is
+   chunked iff the server list the decision read and the client list both contain base:1.1. *)
+Theorem C05_sched_iff : forall client labels s,
+  run_flabels client finit labels = Some s ->
+  forall i f m, nth_error (f_wire s) (S i) = Some (f, m) ->
+  f_m s = MDone None /\ exists sv, f_chosen s = Some sv /\ (f = B11 <-> has11 sv /\ has11 client).
+Proof. exact fc05_iff. Qed.
+Print Assumptions C05_sched_iff.
+
+(* No request frame before the switch decision: until _post_connect has returned normally at most one
+   frame (the hello, by C05_sched_first_frame) is on the wire.  (Applied to every prefix of a run.) *)
+Theorem C05_sched_before_return : forall client labels s,
+  run_flabels client finit labels = Some s ->
+  f_m s <> MDone None -> (length (f_wire s) <= 1)%nat.
+Proof. exact fc05_before_return. Qed.
+Print Assumptions C05_sched_before_return.
+
+(* _base is 1.1 only after the decision, and then iff both sides advertise base:1.1. *)
+Theorem C05_sched_base : forall client labels s,
+  run_flabels client finit labels = Some s ->
+  (f_base s = B11 -> exists sv, f_chosen s = Some sv /\ has11 sv /\ has11 client) /\
+  (f_m s = MDone None -> exists sv, f_chosen s = Some sv /\ (f_base s = B11 <-> has11 sv /\ has11 client)).
+Proof. exact fc05_base. Qed.
+Print Assumptions C05_sched_base.
+
+(* The list the decision read is the capability list of a <hello> the worker dispatched. *)
+Theorem C05_sched_chosen_from_hello : forall client labels s,
+  run_flabels client finit labels = Some s ->
+  forall sv, f_chosen s = Some sv ->
+  exists t sd, In (FWDisp (HTree t)) labels /\ parse_hello t = Ok (sd, sv).
+Proof. exact fc05_chosen_from_hello. Qed.
+Print Assumptions C05_sched_chosen_from_hello.
+
+(* When the server sends one <hello> (as the protocol demands), at the normal return of _post_connect
+   _id and _server_capabilities ARE assigned, are those of that hello, and the decision read them. *)
+Theorem C05_sched_reports : forall client labels s,
+  run_flabels client finit labels = Some s ->
+  (length (hellos labels) <= 1)%nat -> f_m s = MDone None ->
+  exists t sv, hellos labels = [t] /\ parse_hello t = Ok (f_sid s, sv) /\ f_caps s = Some sv /\ f_chosen s = Some sv.
+Proof. exact fc05_reports. Qed.
+Print Assumptions C05_sched_reports.
+
+(* ok_cb / err_cb publish before they signal: the connecting thread never finds `_server_capabilities`
+   unset after the event (no TypeError out of `':base:1.1' in None`), under any interleaving. *)
+Theorem C05_sched_no_typeerror : forall client labels s,
+  run_flabels client finit labels = Some s ->
+  f_m s <> M9 (Some EChoose) /\ f_m s <> MDone (Some EChoose).
+Proof. exact fc05_no_typeerror. Qed.
+Print Assumptions C05_sched_no_typeerror.
+
+(* connect fails instead of succeeding half-initialised: no normal return without a well-formed server
+   hello having been dispatched; none if the transport died (EOF / read error) before one was. *)
+Theorem C05_sched_needs_hello : forall client labels s,
+  run_flabels client finit labels = Some s ->
+  (forall l, In l labels -> ~ fgood l) -> f_m s <> MDone None.
+Proof. exact fc05_needs_hello. Qed.
+Print Assumptions C05_sched_needs_hello.
+
+Theorem C05_sched_die_first : forall client pre e post s,
+  run_flabels client finit (pre ++ FWDie e :: post) = Some s ->
+  (forall l, In l pre -> ~ fgood l) -> f_m s <> MDone None.
+Proof. exact fc05_die_first. Qed.
+Print Assumptions C05_sched_die_first.
+
+(* connect does not hang: whatever the worker does, the connecting thread always has an enabled step
+   until it has left _post_connect (at the wait: woken by the event, or the deadline label FMWait false,
+   which is enabled whenever the event is not set), and it takes at most 10 steps in any run. *)
+Theorem C05_sched_main_never_blocked : forall client labels s,
+  run_flabels client finit labels = Some s -> (forall r, f_m s <> MDone r) ->
+  exists l s', is_mlabel l = true /\ fstep client s l = Some s'.
+Proof. exact fc05_main_never_blocked. Qed.
+Print Assumptions C05_sched_main_never_blocked.
+
+Theorem C05_sched_main_bounded : forall client labels s,
+  run_flabels client finit labels = Some s -> (count_m labels <= 10)%nat.
+Proof. exact fc05_main_bounded. Qed.
+Print Assumptions C05_sched_main_bounded.
+
+(* -------- non-vacuity: accepted and rejected interleavings -------- *)
+Definition start4 : list flabel := [FMReg; FMPend; FMPutHello; FMStart].
+Definition okcb : list flabel := [FWDisp (HTree ex_server_hello); FWSid; FWCaps; FWEvSet].
+(* the F15 order: transport not writable until _post_connect returned *)
+Example C05_sched_ex_blocked :
+  exists s, run_flabels base_caps finit
+    (start4 ++ okcb ++ [FMWait true; FMIsSet true; FMUnreg; FMCaps; FMBase; FMRet;
+                        FWGet 0; FWPendRd true; FWPendClr; FWWrite; FMPut 1; FWGet 1; FWPendRd false; FWBaseRd B11; FWWrite]) = Some s
+  /\ f_wire s = [(B10, 0); (B11, 1)] /\ f_m s = MDone None /\ f_sid s = SidText (Some (lit "4"%string)).
+Proof. eexists. vm_compute. repeat split; reflexivity. Qed.
+(* _base is switched between the worker's dequeue of the hello and its write *)
+Example C05_sched_ex_switch_during_hello_write :
+  exists s, run_flabels base_caps finit
+    (start4 ++ okcb ++ [FMWait true; FWGet 0; FMIsSet true; FWPendRd true; FMUnreg; FMCaps; FWPendClr; FMBase; FWWrite; FMRet]) = Some s
+  /\ f_wire s = [(B10, 0)] /\ f_base s = B11 /\ f_m s = MDone None.
+Proof. eexists. vm_compute. repeat split; reflexivity. Qed.
+(* the deadline passes, the event is set before `is_set()` is evaluated: connect succeeds *)
+Example C05_sched_ex_deadline_race :
+  exists s, run_flabels base_caps finit (start4 ++ [FMWait false] ++ okcb ++ [FMIsSet true; FMUnreg; FMCaps; FMBase; FMRet]) = Some s
+  /\ f_m s = MDone None.
+Proof. eexists. vm_compute. split; reflexivity. Qed.
+Example C05_sched_ex_timeout :
+  exists s, run_flabels base_caps finit (start4 ++ [FWGet 0; FWPendRd true; FWPendClr; FWWrite; FMWait false; FMIsSet false; FMRet]) = Some s
+  /\ f_m s = MDone (Some ETimeout) /\ f_wire s = [(B10, 0)].
+Proof. eexists. vm_compute. repeat split; reflexivity. Qed.
+Example C05_sched_ex_die :
+  exists s, run_flabels base_caps finit
+    (start4 ++ [FWDie ESessionClose; FWBcast; FWErrCb; FWEvSet; FMWait true; FMIsSet true; FMUnreg; FMRet; FWClose; FWExit]) = Some s
+  /\ f_m s = MDone (Some ESessionClose) /\ f_conn s = false /\ f_w s = WDone.
+Proof. eexists. vm_compute. repeat split; reflexivity. Qed.
+(* programs with another order of the same statements are NOT runs of the system: signalling before publishing,
+   queueing the hello before the flag is set, starting the worker before the handler is registered *)
+Example C05_sched_ex_rejected :
+  run_flabels base_caps finit (start4 ++ [FWDisp (HTree ex_server_hello); FWSid; FWEvSet]) = None
+  /\ run_flabels base_caps finit [FMReg; FMPutHello] = None
+  /\ run_flabels base_caps finit [FMStart] = None.
+Proof. vm_compute. repeat split; reflexivity. Qed.
+(* why C05_sched_reports asks for one server hello: with two, the connecting thread can return between the two
+   assignments of the second ok_cb (session id of the second hello, capabilities of the first) *)
+Definition ex_second_hello : node := server_hello true (lit "9"%string) [uri_b10].
+Example C05_sched_ex_two_hellos_torn :
+  exists s, run_flabels base_caps finit
+    (start4 ++ okcb ++ [FMWait true; FMIsSet true; FWDisp (HTree ex_second_hello); FWSid; FMUnreg; FMCaps; FMBase; FMRet]) = Some s
+  /\ f_m s = MDone None /\ f_sid s = SidText (Some (lit "9"%string)) /\ f_caps s = Some [uri_b10; uri_b11].
+Proof. eexists. vm_compute. repeat split; reflexivity. Qed.
+Example C05_sched_ex_good : fgood (FWDisp (HTree ex_server_hello)).
+Proof. exists ex_server_hello. eexists. eexists. split; [reflexivity|]. vm_compute. reflexivity. Qed.
